@@ -83,3 +83,39 @@ Proof.
     cbn [forallb kid_ok] in Hkids. apply andb_true_iff in Hkids as [Hct Hr]. apply andb_true_iff in Hct as [Hcok Htok].
     cbn [map forallb kid_ok]. rewrite (Hc _ Hcok), (clone_chain_ok _ _ Htok), (IHr Hrest Hr). reflexivity.
 Qed.
+
+(* ------------------------------------------------------------------ independence under later histories *)
+From Delb.Tree Require Import AGuard AOpsFacts.
+Lemma arun_fst w ops : fst (arun w ops) = arun_w w ops.
+Proof.
+  revert w. induction ops as [|[F o] r IH]; intros w; [reflexivity|]. cbn [arun arun_w].
+  destruct (astep F w o) as [w1 res] eqn:E. cbn [fst]. rewrite <- IH. destruct (arun w1 r). reflexivity.
+Qed.
+
+(* any tree of the world -- the clone, the original, a bystander -- that no primitive update of the later calls names
+   is presented exactly as before, after a history of any length on the concrete model *)
+Theorem later_history_frame C c ops :
+  shape_ok c = true -> hist_ok c ops = true -> hist_avoids (comp_root C) (abs_world c) ops = true ->
+  comp_in C (abs_world c) -> comp_in C (abs_world (fst (crun c ops))).
+Proof.
+  intros Hs Hg Ha Hin. destruct (history_refines ops c Hs Hg) as [E _].
+  assert (E' : abs_world (fst (crun c ops)) = arun_w (abs_world c) ops) by (rewrite <- arun_fst, E; reflexivity).
+  rewrite E'. apply hist_frame; assumption.
+Qed.
+
+(* the clone just made is such a tree, and so is every tree that existed before *)
+Theorem clone_then_history w x deep ren l ops :
+  shape_ok (cadd_loose l w) = true -> c_clone w x deep ren = Some l ->
+  let c := c_clone_step w x deep ren in
+  hist_ok c ops = true ->
+  (hist_avoids (abs_loose l) (abs_world c) ops = true -> In (abs_loose l) (loose (abs_world (fst (crun c ops))))) /\
+  (forall C, comp_in C (abs_world w) -> hist_avoids (comp_root C) (abs_world c) ops = true ->
+             comp_in C (abs_world (fst (crun c ops)))).
+Proof.
+  intros Hs Hc. unfold c_clone_step. rewrite Hc. cbn zeta. intros Hg. split.
+  - intros Ha. apply (later_history_frame (CLoose (abs_loose l))); try assumption.
+    cbn [comp_in abs_world cadd_loose w_loose loose]. rewrite map_app. apply in_or_app. right. left. reflexivity.
+  - intros C Hin Ha. apply later_history_frame; try assumption.
+    destruct C as [t|d]; cbn [comp_in abs_world cadd_loose w_loose w_docs loose docs] in *; [|exact Hin].
+    rewrite map_app. apply in_or_app. left. exact Hin.
+Qed.
